@@ -1129,6 +1129,66 @@ pub fn chains_floats(f: Fmt, run: u64, extra_patterns: usize, seed: u64, binade_
     jobs
 }
 
+/// (3b) rich runs: around every 8th pattern (and three fixed ones) per binade, a run of `run` consecutive floats with, for every float, its
+/// exact / shortest / 9-or-17-digit renderings and, for every midpoint, unit and far-digit neighbours **and its
+/// truncations to 15..=20 digits (and those plus one unit)** - the short inputs next to a rounding boundary that
+/// the moderate stage decides on its own. The elements are sorted by exact decimal comparison before they are emitted.
+pub fn chains_floats_rich(f: Fmt, run: u64, binade_stride: u64) -> Vec<Job> {
+    use crate::exact::DecN;
+    let mask = fmt_mask(f);
+    let max = (1u64 << f.mant_bits()) - 1;
+    let mut jobs: Vec<Job> = Vec::new();
+    let mut be = 0;
+    while be < f.binades() {
+        jobs.push(Box::new(move |emit: &mut Emit| {
+            let mut ps: Vec<u64> = vec![0u64, max - (run - 2).min(max), 0x5555_5555_5555_5555 & max];
+            ps.extend(patterns(f, 0, 0).into_iter().step_by(8));
+            ps.sort();
+            ps.dedup();
+            for p in ps {
+                let a0 = (be << f.mant_bits()) | p;
+                let mut el: Vec<(Vec<u8>, i64)> = Vec::new();
+                for a in a0..a0 + run {
+                    if a >= f.inf_bits() {
+                        break;
+                    }
+                    let (m, e) = f.decode(a);
+                    el.push(expand(m, e));
+                    el.push(render_sci(f, a, None));
+                    el.push(render_sci(f, a, Some(if f == F32 { 8 } else { 16 })));
+                    let (k, j) = f.upper_boundary(a);
+                    let (hd, he) = expand_full(k, j);
+                    el.push(strip0(&hd, he));
+                    el.push(strip0(&bump_last(&hd, true), he));
+                    el.push(strip0(&bump_last(&hd, false), he));
+                    for kk in 15..=20usize {
+                        if kk < hd.len() {
+                            let t = &hd[..kk];
+                            let te = he + (hd.len() - kk) as i64;
+                            let tt = strip0(t, te);
+                            if !tt.0.is_empty() {
+                                el.push(tt);
+                            }
+                            el.push(strip0(&bump_last(t, true), te));
+                        }
+                    }
+                }
+                el.retain(|(d, _)| !d.is_empty());
+                let mut keyed: Vec<(DecN, Vec<u8>, i64)> = el.into_iter().map(|(d, e)| (DecN::from_digits(&d, e), d, e)).collect();
+                keyed.sort_by(|x, y| x.0.cmp_dec(&y.0));
+                let mut first = true;
+                for (_, d, e) in keyed {
+                    let fam = if first { "CHAIN-r^" } else { "CHAIN-r" };
+                    first = false;
+                    emit_placements(emit, &d, e, if d.len() > 1 { PL_SCI } else { PL_INT }, fam, mask, None);
+                }
+            }
+        }));
+        be += binade_stride;
+    }
+    jobs
+}
+
 /// (4) far-digit chains: prefix . 0^j . d for d = 0..9, prefix = midpoints of named pairs.
 pub fn chains_far(f: Fmt) -> Vec<Job> {
     let mask = fmt_mask(f);
